@@ -362,13 +362,16 @@ class Property(cssutils.util.Base):
             self._log.info('Property: Invalid priority: %s' % self._valuestr(priority))
 
         if wellformed:
+            # validate priority (may raise) before anything is changed
+            if self._normalize(new['literalpriority']) not in ('', 'important'):
+                self._log.error(
+                    'Property: No CSS priority value: %s'
+                    % self._normalize(new['literalpriority'])
+                )
             self.wellformed = self.wellformed and wellformed
             self._literalpriority = new['literalpriority']
             self._priority = self._normalize(self.literalpriority)
             self.seqs[2] = newseq
-            # validate priority
-            if self._priority not in ('', 'important'):
-                self._log.error('Property: No CSS priority value: %s' % self._priority)
 
     literalpriority = property(
         lambda self: self._literalpriority,
